@@ -704,6 +704,9 @@ class EngineRun:
                         pass
             reset_globals()
             self.state = build_state(self.world)
+            # a restarted process boots from the snapshot directory, also when the harness had pre-loaded a GEL graph at the start
+            if isinstance(self.state, dict):
+                self.state.pop("_boot_loaded", None)
         else:
             raise ValueError("unknown op %r" % (k,))
         return None
